@@ -346,6 +346,49 @@ def _helper_runner(sc, dt, nsteps, res):
     return state.X.astype(float), state.Y.astype(float)
 
 
+def analytic_velocity(an):
+    """velocity function (X, Y, Z, t in coarse-independent seconds) of an analytic world, in m/s"""
+    flow = an["flow"]
+    xc, yc = flow.get("xc", 0.0), flow.get("yc", 0.0)
+
+    def vel(X, Y, t):
+        g = 1.0 + flow.get("eps", 0.0) * np.sin(flow.get("nu", 0.0) * t)
+        if flow["kind"] == "rot":
+            om = flow["om0"] * g
+            return -om * (Y - yc) * an["dy"], om * (X - xc) * an["dx"]
+        return (flow["a"] * (Y - yc) * an["dy"] + flow.get("b", 0.0)) * g, np.zeros_like(Y)
+
+    return vel
+
+
+def reference_orders(sc) -> list[float]:
+    """observed orders of my own integrators of the nominal order on the same case (best tableau):
+    tells whether the case is in the asymptotic regime at these step sizes"""
+    pl = sc["plan"]
+    an = sc["analytic"]
+    vel0 = analytic_velocity(an)
+    T = pl["dt"] * pl["nsteps"]
+    xe, ye = exact_map(an, pl["points"], float(T))
+    best = None
+    for _name, tab in refmodel.TABLEAUX[pl["scheme"]].items():
+        errs = []
+        for k in (1, 2, 4):
+            dt = pl["dt"] / k
+            P = np.array(pl["points"], dtype=float)
+            X, Y = P[:, 0].copy(), P[:, 1].copy()
+            Z = np.zeros_like(X)
+            for n in range(pl["nsteps"] * k):
+                def vel(xs, ys, zs, tt, dt=dt):
+                    return vel0(xs, ys, tt * dt)
+                dX, dY = refmodel.rk_displacement(vel, X, Y, Z, n, dt, an["dx"], an["dy"], tab)
+                X, Y = X + dX, Y + dY
+            errs.append(float(np.max(np.hypot(X - xe, Y - ye))))
+        orders = [math.log2(a / b) for a, b in zip(errs[:-1], errs[1:]) if a > 1e-11 and b > 1e-11]
+        if orders and (best is None or min(orders) > min(best)):
+            best = orders
+    return best or []
+
+
 def execute_order(sc, helper: bool) -> Result:
     res = Result()
     pl = sc["plan"]
@@ -378,6 +421,13 @@ def execute_order(sc, helper: bool) -> Result:
     # only "too low" is a violation, and only when both resolutions agree on it: a single low
     # estimate on the coarse pair is pre-asymptotic behaviour, not a degraded scheme
     if orders and max(orders) < nominal - 0.4:
+        # judged only where the case is in the asymptotic regime: a reference integrator of the nominal
+        # order must itself show the order at these step sizes (quadrature errors of a modulated
+        # shear can cancel and give meaningless ratios on a correct scheme)
+        ro = reference_orders(sc)
+        if not ro or min(ro) < nominal - 0.25:
+            res.premise_left += 1
+            return res
         res.add(Violation(tag, None, f"errors at dt, dt/2, dt/4 = {[float(f'{e:.4g}') for e in errs]}",
                           f"observed order {[round(o, 2) for o in orders]}", f">= {nominal - 0.4}"))
     return res
